@@ -18,6 +18,10 @@ def classify(w):
                 what.startswith("frame: abs_fo changed transits from") or
                 what.startswith("frame: transits_0 changed absorption from")):
             return "requests_on_zero_order_absorption_with_transits_go_wrong"
+    if last in ("transits_1", "transits_3") and start == "pheno_oral" and "transits_0" in prev and \
+            any(x in ("transits_1", "transits_3") for x in prev[:prev.index("transits_0")]) and \
+            what.startswith(f"detectability: after {last} the transits detector reports {int(last[-1]) + 1}, requested {last[-1]}"):
+        return "transits_readded_after_removal_reuse_rate_name_of_depot"
     if last in ("transits_1", "transits_3", "transits_1_nodepot") and zo_before:
         return "transits_requested_on_zero_order_absorption"
     if last in ("abs_zo", "abs_seq") and transits_before:
